@@ -394,3 +394,91 @@ func drawC10(t *rapid.T) c10Case {
 func TestC10_Main(t *testing.T) {
 	c10Main.rapid(t, ev.Pick(60_000, 600_000), drawC10)
 }
+
+// ---------------------------------------------------------------------------
+// Damaged texts, enumerated: every text-taking operation x well-formed base texts x every position x a set of junk
+// (invalid UTF-8, lone continuation bytes, NUL, letters that case-fold to ASCII, U+FFFD, a flipped bit) x {replace, insert}.
+// Code that folds case and slices by index, or walks runes and indexes bytes, loses step on exactly such texts; the random
+// generator reaches a particular (token, byte) combination only now and then, the product reaches all of them.
+
+type c10DmgCase struct {
+	Op   string `json:"op"`
+	Text []byte `json:"text"`
+}
+
+var c10DmgOps = map[string][]string{
+	"NewRawSuite":     {"OCRA-1:HOTP-SHA1-6:S", "OCRA-1:HOTP-SHA1-6:QN08-S064", "OCRA-1:HOTP-SHA256-8:C-QN08-PSHA1-S-T1M", "OCRA-1:HOTP-SHA512-10:QH10-T48H", "OCRA-1:HOTP-SHA1-6:C-T30S"},
+	"ParseOTPAuthURL": {"otpauth://totp/ACME:bob?secret=JBSWY3DPEHPK3PXP&issuer=ACME&digits=6&period=30&algorithm=SHA1", "otpauth://hotp/A%3Ab?secret=ME&counter=5"},
+	"DecodeSecret":    {"JBSWY3DPEHPK3PXP", "mzxw6ytb", " MZXW6=== \n", "ME======"},
+	"helpers":         {"12345678", "0000000000000001", "ffffffffffffffff", "18446744073709551615"},
+	"enums":           {"SHA256", "10"},
+}
+
+var c10Junk = []string{"\xff", "\xff\xfe", "\xc3", "\xe6\x97", "\x80", "\x00", "é", "ſ", "K", "ı", "�", "\U0001F600", "\r", "\x11", "%", "%zz", "="}
+
+func checkC10Dmg(c c10DmgCase) verdict {
+	s := string(c.Text)
+	switch c.Op {
+	case "NewRawSuite":
+		if su, err := otp.NewRawSuite(s); err == nil && su != nil {
+			_ = su.Config()
+			_ = su.String()
+			_ = su.Validate()
+			otp.GenerateOCRA("ME", su, otp.OCRAInput{Challenge: []byte("12345678"), Counter: make([]byte, 8), Timestamp: make([]byte, 8), Password: make([]byte, 20)})
+		}
+		otp.IsKnownSuite(s)
+		otp.SuiteConfigFromRaws(s)
+	case "ParseOTPAuthURL":
+		if u, err := url.Parse(s); err == nil && u != nil {
+			otp.ParseOTPAuthURL(u)
+		}
+	case "DecodeSecret":
+		otp.DecodeSecret(s)
+		otp.GenerateHOTP(s, 1, nil)
+		otp.ValidateTOTP(s, "123456", time.Unix(59, 0), nil)
+	case "helpers":
+		otp.ParseDecimalToBigEndian8(s)
+		otp.ParseDecimal64BigEndian(s)
+		otp.ParseDecimalChallengeRFC6287(s)
+		otp.ParseHexTimestamp(s)
+		otp.HexInputToOCRA(s, s, s, s, s)
+		otp.LeftPadHex(s, 16)
+	default:
+		otp.AlgorithmFromStr(s)
+		otp.DigitsFromStr(s)
+	}
+	return ok(true, "op="+c.Op)
+}
+
+var c10Dmg = newPart("C10", "damaged-texts",
+	"complete product: NewRawSuite (+ use of the result) / IsKnownSuite / SuiteConfigFromRaws, ParseOTPAuthURL, DecodeSecret and two entry points, the numeric / hex helpers, the enum conversions x 17 well-formed base texts x every byte position x 17 kinds of junk (invalid UTF-8, lone continuation bytes, NUL, CR, letters that case-fold to ASCII, U+FFFD, an emoji, a control byte in the digit range, %, %zz, =) x {replace, insert}; oracle: no panic (each call under the part's recover) and no hang; every case distinct and non-trivial",
+	checkC10Dmg)
+
+func TestC10_DamagedTexts(t *testing.T) {
+	defer c10Dmg.rec().Flush()
+	i := 0
+	ops := []string{"NewRawSuite", "ParseOTPAuthURL", "DecodeSecret", "helpers", "enums"}
+	for _, op := range ops {
+		for _, base := range c10DmgOps[op] {
+			for k := 0; k <= len(base); k++ {
+				for _, j := range c10Junk {
+					for _, replace := range []bool{false, true} {
+						if replace && k == len(base) {
+							continue
+						}
+						i++
+						if !ev.Mine(i) {
+							continue
+						}
+						text := base[:k] + j + base[k:]
+						if replace {
+							text = base[:k] + j + base[k+1:]
+						}
+						c10Dmg.each(t, c10DmgCase{Op: op, Text: []byte(text)})
+					}
+				}
+			}
+		}
+	}
+	c10Dmg.rec().Exhaustive()
+}
